@@ -971,10 +971,15 @@ class VerilogOperator(ast.AST):
             
         str += self.op
 
-        if (isinstance(self.right, VerilogOperator)):
-            str += '(' + Python2VerilogTranspiler.toVerilog(self.right) + ')'
+        right = self.right
+        if (isinstance(right, list) and len(right) == 1):
+            # the right side of a comparison comes as a list (ast.Compare.comparators)
+            right = right[0]
+            
+        if (isinstance(right, VerilogOperator)):
+            str += '(' + Python2VerilogTranspiler.toVerilog(right) + ')'
         else:
-            str += Python2VerilogTranspiler.toVerilog(self.right)
+            str += Python2VerilogTranspiler.toVerilog(right)
 
         return str
 
